@@ -83,7 +83,7 @@ structure InsRes where
 deriving DecidableEq, Repr, Inhabited
 
 /-- `insertRule(rule, index, inOrder)` for a well-formed rule object; `index = none` is `None`.
-With `inOrder` the harness always passes `index=None` (this is what `add()` does). -/
+ -/
 def insertRule (rules : List Rule) (rule : Rule) (index : Option Nat) (inOrder : Bool) : Except DomErr InsRes :=
   -- `cssstylesheet.py:589-596`
   let idx := index.getD rules.length
@@ -121,7 +121,11 @@ def insertRule (rules : List Rule) (rule : Rule) (index : Option Nat) (inOrder :
         match afterLast (· == .variables) rules with
         | some k => .ok ⟨insertAt rules k .variables, k⟩
         | none =>
-          let k := (firstIdx (fun r => r == .style || r == .unknown || r == .comment) rules).getD idx
+          -- a given index is ignored (fix e727728); the scan starts after the last @charset / @import (fix 23bf738)
+          let start := (afterLast (fun r => r.isCharset || r == .imp) rules).getD 0
+          let k := match firstIdx (fun r => r == .style || r == .unknown || r == .comment) (rules.drop start) with
+            | some j => start + j
+            | none => rules.length
           .ok ⟨insertAt rules k .variables, k⟩
       else if (rules.drop idx).any (fun r => r.isCharset || r == .imp) then .error .hierarchyRequestErr
       else if (rules.take idx).any (fun r => r == .style) then .error .hierarchyRequestErr
